@@ -3,8 +3,9 @@
    or Node/C04CheckProofs.v.  Model: Node/Instance.v (aggregate, dispatch, step). *)
 From Coq Require Import List Arith Permutation.
 Import ListNotations.
+From Onet Require Node.Dispatch Node.DispatchProofs.
 From Onet Require Import Base.Corr Node.Instance Node.Obs Node.VerifyProofs Node.AggregateProofs
-  Corr.C04 Node.C04CheckProofs.
+  Corr.C04 Node.C04CheckProofs Node.Pipeline Node.PipelineProofs Node.PipelineC04Proofs.
 
 (* The property, at the level of TreeNodeInstance.aggregate, for every node
    (any number n >= 1 of children with ids [cs]), every registration table,
@@ -178,3 +179,50 @@ Theorem c04_variants_agree : forall f f' c l,
   run f c l = run f' c l.
 Proof. exact variants_agree. Qed.
 Print Assumptions c04_variants_agree.
+
+(* ---- linked with the C05 model: every interleaving -------------------------
+   Node/Pipeline.v runs the C05 reader/queue transition system (Node/Dispatch.v)
+   and the aggregation semantics above as one system (any number of instances;
+   feeders, readers and closes in any order). *)
+
+(* Once instance i's dispatch queue is drained, its log is the sequential
+   semantics on exactly the sequence it accepted (before that: on the started
+   prefix, c02_log_is_sequential). *)
+Theorem c04_log_is_sequential : forall f c tbl n acts st i ci,
+  prun f c tbl (pinit n) acts = Some st -> nth_error (p_sys st) i = Some ci ->
+  Dispatch.queue ci = [] ->
+  ilog i (p_log st) = run f c (accepted_inj tbl i ci).
+Proof. exact pipeline_quiescent. Qed.
+Print Assumptions c04_log_is_sequential.
+
+(* C04 for the combined system.  If the sequence instance i ACCEPTED is within
+   the property's hypotheses (children answer round after round ...; decided by
+   spec_run from the input alone, [exp] = the deliveries it is due), then in
+   every reachable state, under every interleaving and for both code variants,
+   what the instance's handlers and channels have received is a prefix of
+   [exp] -- never a batch before the last child's message of its round was
+   dispatched, never a batch twice or mixed -- *)
+Theorem c04_holds_under_every_interleaving : forall f t insts tbl n acts st i ci exp,
+  prun f (cfg_of t insts) tbl (pinit n) acts = Some st -> nth_error (p_sys st) i = Some ci ->
+  spec_run (nodes t) insts [] (accepted_inj tbl i ci) = Some exp ->
+  exists later, exp = received tbl i ci st ++ later.
+Proof. exact pipeline_batches_prefix. Qed.
+Print Assumptions c04_holds_under_every_interleaving.
+
+(* ... and exactly [exp] -- one complete batch per round -- once the dispatch
+   queue is drained. *)
+Theorem c04_complete_at_quiescence : forall f t insts tbl n acts st i ci exp,
+  prun f (cfg_of t insts) tbl (pinit n) acts = Some st -> nth_error (p_sys st) i = Some ci ->
+  Dispatch.queue ci = [] ->
+  spec_run (nodes t) insts [] (accepted_inj tbl i ci) = Some exp ->
+  received tbl i ci st = exp.
+Proof. exact pipeline_batches_quiescent. Qed.
+Print Assumptions c04_complete_at_quiescence.
+
+(* the same for whatever prefix has been started, with no crash *)
+Theorem c04_started_prefix_delivered : forall f t insts tbl n acts st i ci exp,
+  prun f (cfg_of t insts) tbl (pinit n) acts = Some st -> nth_error (p_sys st) i = Some ci ->
+  spec_run (nodes t) insts [] (started_inj tbl i ci) = Some exp ->
+  received tbl i ci st = exp /\ existsb is_crash (ilog i (p_log st)) = false.
+Proof. exact pipeline_batches. Qed.
+Print Assumptions c04_started_prefix_delivered.
